@@ -7,6 +7,7 @@ package main
 import (
 	"fmt"
 	"go/token"
+	"go/types"
 	"sort"
 	"strings"
 
@@ -116,6 +117,13 @@ func (s *symb) expr0(v ssa.Value) *Sym {
 			op, a, b = token.LSS, b, a
 		} else if op == token.GEQ {
 			op, a, b = token.LEQ, b, a
+		}
+		isStr := false
+		if bt, ok := x.X.Type().Underlying().(*types.Basic); ok && bt.Info()&types.IsString != 0 {
+			isStr = true
+		}
+		if isStr && op == token.ADD {
+			return &Sym{Op: "bin:++", Args: []*Sym{a, b}, Val: v} // string concatenation: ordered
 		}
 		if commutative(op) && a.String() > b.String() {
 			a, b = b, a
